@@ -1147,6 +1147,27 @@ def foreign_types_note(ck):
         ck.log("NOTE (informational, not an obligation): " + "; ".join(rows))
 
 
+def gym_roundtrip_instances(ck):
+    """`equality ... survives a round trip through the corresponding Gymnasium space`: the conversion runs Gymnasium / NumPy C code on concrete values, which
+    no symbolic engine here reaches.  Recorded as object-level facts on a fixed list of instances (every boundedness class of Box bounds per element, shapes,
+    every space kind, nesting; Dict keys in and out of Gymnasium's sorted order) -- an enumeration of the listed instances, not a solver verdict."""
+    from lerax.compatibility.gym import gym_space_to_lerax_space, lerax_to_gym_space
+    inf = jnp.inf
+    boxes = {"bounded": Box(-1.0, 2.0, shape=(2,)), "scalar": Box(0.0, 1.0), "unbounded": Box(-inf, inf, shape=(2,)), "bounded_below": Box(jnp.array([0.5, -3.0]), jnp.array([inf, inf])),
+             "bounded_above": Box(jnp.array([-inf, -inf]), jnp.array([-0.5, 3.0])), "mixed": Box(jnp.array([-inf, 0.0, -1.0, -inf]), jnp.array([inf, inf, 1.0, 2.0])), "matrix": Box(-jnp.ones((2, 3)), jnp.ones((2, 3)))}
+    spaces = dict({f"Box[{k}]": v for k, v in boxes.items()}, **{"Discrete(3)": Discrete(3), "MultiDiscrete(2,3)": MultiDiscrete((2, 3)), "MultiBinary(3)": MultiBinary(3),
+                  "Tuple(Box[mixed],Discrete)": Tuple((boxes["mixed"], Discrete(2))), "Dict(sorted keys)": Dict({"a": boxes["unbounded"], "b": Discrete(2)}),
+                  "Dict(unsorted keys)": Dict({"z": boxes["bounded_below"], "a": MultiBinary(2)}), "Dict(nested)": Dict({"k": Tuple((boxes["scalar"], Dict({"y": Discrete(4), "x": boxes["bounded_above"]})))})})
+    for name, sp in spaces.items():
+        try:
+            back = gym_space_to_lerax_space(lerax_to_gym_space(sp))
+            eq = (back == sp) is True and (sp == back) is True
+            hs = hash(back) == hash(sp)
+            ck.fact(f"gym_roundtrip.eq_and_hash@{name}", eq and hs, f"back == original: {eq}; same hash: {hs}; {sp!r} -> {back!r}"[:400])
+        except Exception as ex:  # noqa: BLE001
+            ck.fact(f"gym_roundtrip.eq_and_hash@{name}", False, f"{type(ex).__name__}: {str(ex)[:200]}")
+
+
 def main():
     ck = Check("C14", "Spaces: exact membership, member samples, coherent equality")
     ck.mode = "FP32 (contains, canonical, Box.__eq__); REAL (sample, flatten_sample); CrossHair (other __eq__/__hash__)"
@@ -1157,7 +1178,7 @@ def main():
              mask="Discrete mask with at least one allowed index")
     ck.stub(*stubs.STUB_NOTES)
     ck.out("Box.__hash__ beyond `equal boxes hash equal` (decided by running the real method body on symbolic array proxies: arithmetic with Python numbers and .tobytes(), bytes = IEEE bit patterns; any other use of the bounds makes the obligation inconclusive); hash collisions between unequal boxes are allowed",
-           "Gymnasium round trip gym_space_to_lerax_space(lerax_to_gym_space(s)) == s and Dict key order: runs Gymnasium/NumPy C code on concrete values; CrossHair only realises the inputs (enumeration), so it is not claimed",
+           "Gymnasium round trip gym_space_to_lerax_space(lerax_to_gym_space(s)) == s beyond the listed instances (gym_roundtrip.*: object-level facts on a fixed list, the conversion runs Gymnasium/NumPy C code that no symbolic engine here reaches)",
            "float32 rounding and overflow inside Box.sample() (decided over the reals per boundedness class) and overflow of low+high in Box.canonical() (finite bounds limited to 2^126)",
            "subnormal float32 values (XLA on CPU flushes them to zero): Box bounds in canonical() are zero, normal or infinite; contains is decided in IEEE semantics",
            "statistical properties of sample() (uniformity, independence)",
@@ -1172,6 +1193,8 @@ def main():
     sec_members(ck)
     sec_flatten(ck)
     sec_box_eq(ck)
+    with ck.section("gymnasium round trip"):
+        gym_roundtrip_instances(ck)
     with ck.section("foreign types"):
         foreign_types_note(ck)
     if xr is not None:
